@@ -1,5 +1,7 @@
 """Run core_exec scenarios in parallel; one process per scenario (isolation: a crash kills one case only)."""
 import os
+import shutil
+import tempfile
 from concurrent.futures import ThreadPoolExecutor
 from vf import build, framework as fw
 
@@ -31,5 +33,10 @@ def run_many(texts, variant="plain", timeout=120, tags=None, env_extra=None):
         r.text, r.rc, r.trace, r.err, r.dt, r.variant = texts[i], rc, out, err, dt, variant
         r.tag = tags[i] if tags else i
         return r
-    with ThreadPoolExecutor(fw.NPROC) as ex:
-        return list(ex.map(one, range(len(texts))))
+    scratch = tempfile.mkdtemp(prefix="vfce_")
+    env_extra = dict(env_extra or {}, VF_SCRATCH=scratch)
+    try:
+        with ThreadPoolExecutor(fw.NPROC) as ex:
+            return list(ex.map(one, range(len(texts))))
+    finally:
+        shutil.rmtree(scratch, ignore_errors=True)
